@@ -23,7 +23,7 @@ RULE = ('(1) rename: a generated chart with fixed-width names is built twice fro
 ASSUMPTIONS = ['renamings keep the relative lexicographic order of state names (names are the documented tie-breaker)',
                'guest charts have no final child of their root (a final child of the root ends the guest but not the host)',
                'the host never leaves the plugged state']
-REQUIRED_COUNTERS = ['donor_unchanged_checks', 'rename_cases', 'copy_cases', 'rename_steps_compared', 'copy_steps_compared', 'renamed_internal_sources',
+REQUIRED_COUNTERS = ['rejected_renames_before', 'donor_unchanged_checks', 'rename_cases', 'copy_cases', 'rename_steps_compared', 'copy_steps_compared', 'renamed_internal_sources',
                      'renamed_initial_or_memory_targets', 'warmup_before_rename', 'copy_partial_source', 'copy_with_backward_transition']
 TIERS = dict(quick=dict(steps=30, gen=dict(max_states=12, max_depth=4, max_trans=14)),
              thorough=dict(steps=60, gen=dict(max_states=18, max_depth=5, max_trans=24)))
@@ -117,6 +117,17 @@ def rename_case(acc, rnd, tier):
         for n in sc_b.states:
             sc_b.depth_for(n)
     rnd.shuffle(subset)
+    if rnd.random() < 0.4 and len(names) >= 2:
+        # "try the wanted name, fall back on another one": the first attempt collides with an existing state and is rejected
+        from sismic.exceptions import StatechartError
+        for n in subset[:2]:
+            other = rnd.choice([x for x in names if x != n])
+            try:
+                sc_b.rename_state(n, other)
+                acc.violation('C17:rename-structure', 'rename_state(%r, %r) onto an existing name was accepted' % (n, other), dict(chart=ch))
+                return
+            except StatechartError:
+                acc.count('rejected_renames_before')
     for n in subset:
         sc_b.rename_state(n, new[n])
     wit = dict(chart=ch, renamed=new)
